@@ -18,6 +18,9 @@ def check(run):
     run.tlc_mc("XState.tla", "MC_XState.cfg" if quick else "MC_XState_thorough.cfg", timeout=3000)
     if not quick:
         run.tlc_mc("XState.tla", "MC_XState_kv.cfg", timeout=3000)
+    # design check of the rule by which a played block removes pending transactions (processUnconfirmTxs, transcribed):
+    # it leaves exactly what can be re-applied on the new chain state (PlayRuleExact)
+    run.tlc_mc("XState.tla", "MC_XState_play_quick.cfg" if quick else "MC_XState_play.cfg", timeout=3000)
     conflict = '{"t1", "t2", "t3", "t6", "t4", "w1", "w2", "w3", "w4", "w5", "w6", "c1", "p11", "x1", "x2", "p1", "p2", "p3", "p4", "p5", "p7", "p6", "p9", "p10"}'
     plans = [dict(num=120, ops=20, txs=conflict, driver_args=["-direct", "35"])] if quick else \
             [dict(num=1500, ops=20, txs=conflict, driver_args=["-direct", "35"]), dict(num=500, ops=30, maxb=9)]
